@@ -307,6 +307,11 @@ func c04Key(r *core.Rand) string {
 }
 
 func renderDoc(r *core.Rand, doc any) ([]byte, string) {
+	if r.Intn(4) == 0 {
+		if b := renderAliased(r, doc); b != nil {
+			return b, "yaml-aliased"
+		}
+	}
 	if r.Intn(3) == 0 {
 		b, err := json.Marshal(doc)
 		if err == nil {
